@@ -6,8 +6,16 @@ import itertools
 import common
 
 ID = "C19"
-LEAN_MODULES = ["QProps.C19"]
+LEAN_MODULES = ["QProps.C19", "QProps.C19g"]
 THEOREMS = [
+    "RI.componentsOf_partition",
+    "RI.componentsOf_conn",
+    "RI.componentsOf_order",
+    "RI.component_size",
+    "RI.searchG_total",
+    "RI.searchG_default_kept",
+    "RI.searchG_label",
+    "RI.searchG_same_label_iff",
     "RI.reinsert_delete",
     "RI.reinsertChecked_delete",
     "RI.repeated_index_raises",
@@ -742,8 +750,21 @@ class Search(common.Suite):
         except Exception as e:  # reported by the oracle (also when replayed)
             return {"exception": type(e).__name__, "message": str(e)[:300]}
         labels = [int(x) if float(x) == int(x) else float(x) for x in np.asarray(out).reshape(-1)]
-        return {"result": "ok", "labels": labels,
+        return {"result": "ok", "labels": labels, "pairs": self.bonded_pairs(case, atoms),
                 "caller_array_mutated": (d is not None and [int(x) for x in d] != before)}
+
+    def bonded_pairs(self, case, atoms=None):
+        """the (i, j) pairs ASE's neighbour list reports for this geometry and cutoff — the very call search_molecules
+        makes; the model computes the connected components from them (`RI.componentsOf`, theorems `componentsOf_conn`,
+        `searchG_same_label_iff`), so the harness's own union-find is no longer an input of the model"""
+        from ase.neighborlist import neighbor_list
+
+        atoms = atoms if atoms is not None else self.build(case)
+        try:
+            i, j = neighbor_list("ij", atoms, cutoff=self.py_cutoff(case), self_interaction=False)
+        except Exception:  # noqa: BLE001
+            return None
+        return sorted({(int(a), int(b)) for a, b in zip(i, j)})
 
     def model_lines(self, case):
         n = len(case["box"]["numbers"])
@@ -751,22 +772,36 @@ class Search(common.Suite):
         req = case["required_size"]
         rs = "N" if req is None else (f"I:{req}" if isinstance(req, int) else f"P:{req[0]}:{req[1]}")
         d = case["default"]
-        return [f"mol {n} {show_rows(comps)} {rs} {'N' if d is None else ints(d)}"]
+        ds = "N" if d is None else ints(d)
+        pairs = self.bonded_pairs(case)
+        ps = "-" if not pairs else ",".join(f"{a}:{b}" for a, b in pairs)
+        return [f"mol {n} {show_rows(comps)} {rs} {ds}", f"molg {n} {ps} {rs} {ds}"]
 
     def model_obs(self, case, outs):
-        w = outs[0].split()
-        if w[0] == "err":
-            return {"result": "err", "exc": w[1]}
-        return {"result": "ok", "labels": [] if w[1] == "-" else [int(x) for x in w[1].split(",")]}
+        def parse(o):
+            w = o.split()
+            if w[0] == "err":
+                return {"result": "err", "exc": w[1]}
+            return {"result": "ok", "labels": [] if w[1] == "-" else [int(x) for x in w[1].split(",")]}
+
+        m = parse(outs[0])
+        m["graph"] = parse(outs[1])
+        return m
 
     def compare(self, case, real, model):
         if "exception" in real:
             return [f"real raised {real['exception']}: {real['message']}; model {model}"]
         if real["result"] != model["result"]:
             return [f"real {real} / model {model}"]
+        g = model.get("graph", {})
+        if g.get("result") != real["result"]:
+            return [f"real {real['result']} / graph model {g}"]
         if real["result"] == "err":
             return []
-        return [] if real["labels"] == model["labels"] else [f"labels real {real['labels']} model {model['labels']}"]
+        d = [] if real["labels"] == model["labels"] else [f"labels real {real['labels']} model {model['labels']}"]
+        if g.get("labels") != real["labels"]:
+            d.append(f"labels real {real['labels']} / model with its own connected components {g.get('labels')}")
+        return d
 
     def oracle(self, case, obs):
         n = len(case["box"]["numbers"])
